@@ -196,6 +196,42 @@ func spacingRule(c *Check) {
 			}
 		})
 	}
+	// the parse function gives up (returns an entry without PID and message)
+	// only for a record that has no message part at all: the decision looks
+	// at the number of fields and nothing else. A validity test on the PID
+	// text or on the message drops records that the processor, handed the
+	// same record directly, would have processed
+	parseFns := map[*ssa.Function]bool{}
+	for _, st := range sites {
+		parseFns[st.Parent()] = true
+	}
+	for pf := range parseFns {
+		pr := NewResolver(p)
+		handled := func(in ssa.Instruction) bool {
+			st, ok := in.(*ssa.Store)
+			if !ok {
+				return false
+			}
+			fa, ok := st.Addr.(*ssa.FieldAddr)
+			if !ok {
+				return false
+			}
+			n := namedOf(fa.X.Type())
+			return n != nil && n.Obj().Name() == "SshdLogEntry"
+		}
+		ds, _ := dropDeciders(pf, handled, nil)
+		leafOK := func(o *Org) bool { return o.K == "call" && o.Name == "len" }
+		okP := true
+		for _, d := range ds {
+			if ok, w := condOnly(pr, d.If.Cond, leafOK, 0); !ok {
+				okP = false
+				c.Bad("spacing-preserved", "records given up by "+pf.Name(), p.InstrPos(d.If), "the parse function can return an empty entry depending on "+w+" (not only on the number of fields of the record): such a record produces nothing through the pipe although the processor handed the same PID and message directly would process it")
+			}
+		}
+		if okP {
+			c.OK("spacing-preserved", "records given up by "+pf.Name(), p.Pos(pf.Pos()), fmt.Sprintf("%d deciding branch(es), each a test of the number of fields", len(ds)))
+		}
+	}
 	seps := map[string]bool{}
 	for _, st := range sites {
 		fa := st.Addr.(*ssa.FieldAddr)
@@ -368,16 +404,26 @@ func auditRecordHandedOn(c *Check) {
 			return false
 		}
 		var hos []ssa.Instruction
+		rewritten := func(in ssa.Instruction, v ssa.Value) {
+			if b, ok := v.Type().Underlying().(*types.Basic); ok && b.Kind() == types.String {
+				c.Bad("audit-record-handed-on", "record sent in "+fn.Name(), p.InstrPos(in), "the text handed on is not the record the callback was given ("+trimOrg(NewResolver(p).Of(v).String())+"): the record is rewritten (cut, filtered, normalised) between the pipe and the parser, so the audit event assembled from it differs from the one the same record handed over directly produces")
+				hos = append(hos, in)
+			}
+		}
 		allInstrs(fn, func(in ssa.Instruction) {
 			switch x := in.(type) {
 			case *ssa.Send:
 				if isLine(x.X) {
 					hos = append(hos, in)
+				} else {
+					rewritten(in, x.X)
 				}
 			case *ssa.Select:
 				for _, st := range x.States {
 					if st.Dir == types.SendOnly && isLine(st.Send) {
 						hos = append(hos, in)
+					} else if st.Dir == types.SendOnly {
+						rewritten(in, st.Send)
 					}
 				}
 			}
